@@ -10,9 +10,9 @@ DEEP = ["ins:1;era:1,ins:1|ins:1,era:1;trav,size", "ins:1,ins:2;era:1,find:2|era
 DEEP_NOGC = ["ins:1,ins:2|ins:2,ins:1;trav,size"]
 
 
-def consts(replace=False, ordered=True, exact=False):
+def consts(replace=False, ordered=True, exact=False, itermode="none"):
     return ["AbsInit <- SetInit", "Step <- SetStep", "XStep <- SetXStep", "FinalOk <- SetFinal",
-            "Replace = %s" % ("TRUE" if replace else "FALSE"), "Ordered = %s" % ("TRUE" if ordered else "FALSE"), "MinMaxExact = %s" % ("TRUE" if exact else "FALSE")]
+            "Replace = %s" % ("TRUE" if replace else "FALSE"), "Ordered = %s" % ("TRUE" if ordered else "FALSE"), "MinMaxExact = %s" % ("TRUE" if exact else "FALSE"), 'IterMode = "%s"' % itermode]
 
 
 def gen_program(rng, voc, keys=3, minmax=False):
